@@ -324,8 +324,7 @@ Definition vtx_bad (p : bool * Z) : bool := fst p && (snd p <? 0).
 Definition vox_bad (p : bool * ijk) : bool := negb (fst p) && ijk_neg (snd p).
 
 Definition bm_wf (a : bm) : Prop :=
-  b_name a <> []
-  /\ length (b_voxel a) = length (b_name a) /\ length (b_vertex a) = length (b_name a)
+  length (b_voxel a) = length (b_name a) /\ length (b_vertex a) = length (b_name a)
   /\ existsb vtx_bad (combine (bm_surface_mask a) (b_vertex a)) = false
   /\ existsb vox_bad (combine (bm_surface_mask a) (b_voxel a)) = false
   /\ (b_vol a = None <-> forallb (fun b => b) (bm_surface_mask a) = true)
@@ -334,7 +333,7 @@ Definition bm_wf (a : bm) : Prop :=
 
 (* when the constructor succeeds, and what it builds *)
 Lemma bm_make_spec name vox vtx v nv :
-  name <> [] -> length vox = length name -> length vtx = length name ->
+  length vox = length name -> length vtx = length name ->
   (forallb (fun b => b) (map (is_surf nv) name) = false -> v <> None) ->
   existsb vtx_bad (combine (map (is_surf nv) name) vtx) = false ->
   existsb vox_bad (combine (map (is_surf nv) name) vox) = false ->
@@ -342,7 +341,7 @@ Lemma bm_make_spec name vox vtx v nv :
   = Ok (mkBm name vox vtx (if forallb (fun b => b) (map (is_surf nv) name) then None else v)
              (filter (fun kv => zmem (fst kv) name) nv)).
 Proof.
-  intros Hne H1 H2 Hv Hb1 Hb2. unfold bm_make. destruct name as [|n0 nr] eqn:En; [congruence|]. rewrite <- En in *.
+  intros H1 H2 Hv Hb1 Hb2. unfold bm_make.
   apply zlen_eqb in H1, H2. rewrite H1, H2. cbn [andb negb].
   rewrite surface_mask_filter.
   destruct (forallb (fun b => b) (map (is_surf nv) name)) eqn:Ea; cbn [negb andb].
@@ -354,8 +353,7 @@ Qed.
 (* every axis the constructor returns is well formed *)
 Lemma bm_make_wf name vox vtx v nv a : NoDup (keys nv) -> bm_make name vox vtx v nv = Ok a -> bm_wf a.
 Proof.
-  intros Hnd. unfold bm_make. destruct name as [|n0 nr] eqn:En; [discriminate|]. rewrite <- En.
-  assert (Hne : name <> []) by (rewrite En; discriminate). clear En.
+  intros Hnd. unfold bm_make.
   destruct ((zlen vox =? zlen name) && (zlen vtx =? zlen name)) eqn:El; cbn [negb]; [|discriminate].
   apply andb_true_iff in El as [El1 El2]. apply zlen_eqb in El1, El2.
   set (nv' := filter (fun kv => zmem (fst kv) name) nv).
@@ -397,15 +395,15 @@ Proof. intros H. unfold zlen. rewrite combine_length. lia. Qed.
 
 Definition bm_default : bool * list Z * Z := (false, [-1; -1; -1], 0).
 
-(* axis[idx] with a NON-EMPTY selection describes exactly the rows data[idx]; the volume is
-   kept when a voxel remains, nvertices keeps the structures that still occur *)
-Lemma bm_index a ix pos : bm_wf a -> resolve (bm_len a) ix = Ok pos -> pos <> [] ->
+(* axis[idx] describes exactly the rows data[idx] (the empty selection included: an empty
+   axis); the volume is kept when a voxel remains, nvertices keeps the structures that still occur *)
+Lemma bm_index a ix pos : bm_wf a -> resolve (bm_len a) ix = Ok pos ->
   exists b, bm_getitem a ix = Ok b /\ bm_wf b
     /\ bm_elements b = select (bm_elem (b_nv a) 0 no_ijk 0) (bm_elements a) pos
     /\ bm_len b = zlen pos
     /\ b_nv b = filter (fun kv => zmem (fst kv) (b_name b)) (b_nv a).
 Proof.
-  intros (Hne & Hl1 & Hl2 & Hb1 & Hb2 & Hv & Hk & Hnd) Hr Hpos.
+  intros (Hl1 & Hl2 & Hb1 & Hb2 & Hv & Hk & Hnd) Hr.
   assert (Hin : in_range (bm_len a) pos) by (eapply resolve_range; [apply zlen_nonneg|exact Hr]).
   unfold bm_getitem. rewrite Hr.
   set (name' := select 0 (b_name a) pos). set (vox' := select no_ijk (b_voxel a) pos). set (vtx' := select 0 (b_vertex a) pos).
@@ -417,7 +415,6 @@ Proof.
           = Ok (mkBm name' vox' vtx' (if forallb (fun b => b) (map (is_surf (b_nv a)) name') then None else b_vol a)
                      (filter (fun kv => zmem (fst kv) name') (b_nv a)))).
   { apply bm_make_spec.
-    - unfold name'. intros E. apply (f_equal (@length Z)) in E. rewrite select_length in E. destruct pos; [congruence|discriminate].
     - unfold vox', name'. now rewrite !select_length.
     - unfold vtx', name'. now rewrite !select_length.
     - rewrite Hsm. intros Hf Hn. apply Hv in Hn. rewrite forallb_select in Hf; [discriminate|exact Hn|now rewrite Hlen].
@@ -436,15 +433,12 @@ Proof.
     unfold bm_elem. now rewrite is_surf_filter.
 Qed.
 
-(* S-C18b: an EMPTY selection is refused by BrainModelAxis (np.vectorize on a size-0 array) *)
-Lemma bm_index_empty a ix : resolve (bm_len a) ix = Ok [] -> bm_getitem a ix = Err EVectorize0.
-Proof. intros H. unfold bm_getitem. rewrite H. reflexivity. Qed.
 Lemma bm_index_err a ix e : resolve (bm_len a) ix = Err e -> bm_getitem a ix = Err e.
 Proof. intros H. unfold bm_getitem. now rewrite H. Qed.
 
 Lemma bm_elements_length a : bm_wf a -> zlen (bm_elements a) = bm_len a.
 Proof.
-  intros (_ & H1 & H2 & _). unfold bm_elements, bm_elems, bm_len. rewrite zlen_map.
+  intros (H1 & H2 & _). unfold bm_elements, bm_elems, bm_len. rewrite zlen_map.
   rewrite zlen_combine by (rewrite combine_length; lia). apply zlen_combine. lia.
 Qed.
 
@@ -455,7 +449,7 @@ Lemma bm_int a k : bm_wf a ->
                        | None => Err EIndex
                        end.
 Proof.
-  intros (_ & H1 & H2 & _). unfold bm_get_element. destruct (py_int_index (bm_len a) k) as [i|]; [|reflexivity].
+  intros (H1 & H2 & _). unfold bm_get_element. destruct (py_int_index (bm_len a) k) as [i|]; [|reflexivity].
   f_equal. unfold bm_elements, bm_elems.
   change (bm_elem (b_nv a) 0 no_ijk 0) with ((fun p => bm_elem (b_nv a) (fst (fst p)) (snd (fst p)) (snd p)) (0, no_ijk, 0)).
   rewrite map_nth. rewrite combine_nth by (rewrite combine_length; lia). rewrite combine_nth by lia. reflexivity.
@@ -515,7 +509,7 @@ Lemma bm_make_inv name vox vtx v nv a : bm_make name vox vtx v nv = Ok a ->
   b_name a = name /\ b_voxel a = vox /\ b_vertex a = vtx
   /\ b_nv a = filter (fun kv => zmem (fst kv) name) nv.
 Proof.
-  unfold bm_make. destruct name as [|n0 nr] eqn:En; [discriminate|]. rewrite <- En.
+  unfold bm_make.
   repeat match goal with |- context [if ?c then Err _ else _] => destruct c; [discriminate|] end.
   intros [= <-]. cbn. auto.
 Qed.
@@ -550,7 +544,7 @@ Qed.
 Lemma bm_concat a b c : bm_wf a -> bm_wf b -> kinds_agree a b -> bm_add a b = Ok c ->
   bm_wf c /\ bm_elements c = bm_elements a ++ bm_elements b /\ bm_len c = bm_len a + bm_len b.
 Proof.
-  intros (_ & Ha1 & Ha2 & _ & _ & _ & _ & Hnda) (_ & Hb1 & Hb2 & _) [Hk1 Hk2]. unfold bm_add.
+  intros (Ha1 & Ha2 & _ & _ & _ & _ & Hnda) (Hb1 & Hb2 & _) [Hk1 Hk2]. unfold bm_add.
   destruct (merge_vol (b_vol a) (b_vol b)) as [v|]; [|discriminate].
   destruct (merge_nv (b_nv a) (b_nv b)) as [nv|] eqn:Em; [|discriminate].
   apply merge_nv_spec in Em as [Hnd Hkeys]; [|exact Hnda].
@@ -745,10 +739,9 @@ Proof.
     f_equal. apply py_indices_span; unfold e' in *; lia. }
   assert (Hlen : zlen (map (fun k => s + k) (zseq (e' - s))) = e' - s) by (rewrite zlen_map; apply zseq_length; lia).
   destruct (bm_index a _ _ Hw Hr) as (sb & Hg & _ & _ & Hl & _).
-  { intros E. rewrite E in Hlen. unfold zlen in Hlen. cbn in Hlen. lia. }
   exists sb. split; [exact Hg|].
   unfold bm_getitem in Hg. rewrite Hr in Hg. apply bm_make_inv in Hg as (_ & Hx & Ht & _).
-  destruct Hw as (_ & Hl1 & Hl2 & _).
+  destruct Hw as (Hl1 & Hl2 & _).
   rewrite Hx, Ht, Hl, Hlen. unfold bm_len in *.
   rewrite !select_span by (unfold zlen in *; lia). auto.
 Qed.
@@ -771,13 +764,13 @@ Proof.
   - destruct Hrest as [-> _]. cbn [with_subaxes]. eexists. split; [reflexivity|]. cbn [map]. now rewrite Hm.
 Qed.
 
-Lemma bm_to_mapping_spec a : bm_wf a ->
+Lemma bm_to_mapping_spec a : bm_wf a -> b_name a <> [] ->
   exists R, chain (b_name a) 0 R /\ maximal R /\
     bm_to_mapping a = Ok (mkMap (map (model_of a) R)
                                 (if existsb (fun m => negb (m_surf m)) (map (model_of a) R)
                                  then b_vol a else None)).
 Proof.
-  intros Hw. destruct (bm_runs_chain a) as (R & HR & Hc & Hm); [apply Hw|].
+  intros Hw Hne. destruct (bm_runs_chain a) as (R & HR & Hc & Hm); [exact Hne|].
   exists R. split; [exact Hc|]. split; [exact Hm|].
   destruct (with_subaxes_chain a Hw R 0 ltac:(lia) Hc) as (structs & Hs1 & Hs2).
   unfold bm_to_mapping, bm_iter_structures. rewrite HR, Hs1, Hs2. reflexivity.
@@ -852,9 +845,9 @@ Definition dinv (a : bm) (off : Z) (st : decode_state) : Prop :=
   /\ ds_vol st = if forallb (fun b => b) (firstn (Z.to_nat off) (bm_surface_mask a)) then None else b_vol a.
 
 Lemma canonV_length a : bm_wf a -> zlen (canonV (b_nv a) (b_name a) (b_vertex a)) = bm_len a.
-Proof. intros (_ & _ & H & _). unfold canonV, bm_len. rewrite zlen_map. apply zlen_combine. lia. Qed.
+Proof. intros (_ & H & _). unfold canonV, bm_len. rewrite zlen_map. apply zlen_combine. lia. Qed.
 Lemma canonX_length a : bm_wf a -> zlen (canonX (b_nv a) (b_name a) (b_voxel a)) = bm_len a.
-Proof. intros (_ & H & _). unfold canonX, bm_len. rewrite zlen_map. apply zlen_combine. lia. Qed.
+Proof. intros (H & _). unfold canonX, bm_len. rewrite zlen_map. apply zlen_combine. lia. Qed.
 
 Lemma zlen_firstn {A} (l : list A) k : 0 <= k <= zlen l -> zlen (firstn (Z.to_nat k) l) = k.
 Proof. intros H. unfold zlen in *. rewrite firstn_length. lia. Qed.
@@ -870,7 +863,7 @@ Lemma decode_step_run a mvol nm s e st : bm_wf a ->
 Proof.
   intros Hw Hs He Hc Hmv (I1 & I2 & I3 & I4 & I5 & I6).
   set (e' := stop_of e (bm_len a)) in *. set (n := bm_len a) in *.
-  pose proof Hw as (Hne & Hl1 & Hl2 & Hb1 & Hb2 & Hv & Hk & Hnd).
+  pose proof Hw as (Hl1 & Hl2 & Hb1 & Hb2 & Hv & Hk & Hnd).
   assert (Hc0 : (0 < Z.to_nat (e' - s))%nat) by lia.
   assert (Hnames : sub s e' (b_name a) = repeat nm (Z.to_nat (e' - s))) by (apply sub_const; [lia|exact He|exact Hc]).
   assert (Hname' : firstn (Z.to_nat e') (b_name a) = firstn (Z.to_nat s) (b_name a) ++ repeat nm (Z.to_nat (e' - s)))
@@ -1070,13 +1063,13 @@ Qed.
 (* THE round trip: from_index_mapping (to_mapping a) is an axis equal to a (== both ways),
    with the same element descriptions, for every well-formed non-empty brain-model axis,
    whatever the order and interleaving of its structures *)
-Lemma bm_rle_roundtrip a : bm_wf a ->
+Lemma bm_rle_roundtrip a : bm_wf a -> b_name a <> [] ->
   exists m a', bm_to_mapping a = Ok m /\ bm_from_mapping m = Ok a'
     /\ bm_wf a' /\ bm_eqb a' a = true /\ bm_eqb a a' = true
     /\ bm_elements a' = bm_elements a /\ b_name a' = b_name a /\ b_vol a' = b_vol a.
 Proof.
-  intros Hw. destruct (bm_to_mapping_spec a Hw) as (R & Hc & _ & Hm).
-  pose proof Hw as (Hne & Hl1 & Hl2 & Hb1 & Hb2 & Hv & Hk & Hnd).
+  intros Hw Hne. destruct (bm_to_mapping_spec a Hw Hne) as (R & Hc & _ & Hm).
+  pose proof Hw as (Hl1 & Hl2 & Hb1 & Hb2 & Hv & Hk & Hnd).
   set (mp := mkMap (map (model_of a) R) (if existsb (fun m => negb (m_surf m)) (map (model_of a) R) then b_vol a else None)) in *.
   exists mp. cut (exists a', bm_from_mapping mp = Ok a'
     /\ bm_wf a' /\ bm_eqb a' a = true /\ bm_eqb a a' = true
@@ -1122,7 +1115,6 @@ Proof.
                            (b_vol a) (ds_nv st))).
   { rewrite I1, I2, I3. rewrite bm_make_spec.
     - rewrite Hsm, Hvol, Hfil. reflexivity.
-    - exact Hne.
     - unfold canonX. rewrite map_length, combine_length. lia.
     - unfold canonV. rewrite map_length, combine_length. lia.
     - rewrite Hsm, I6. intros E. rewrite E. intros E2. apply Hv in E2. congruence.
@@ -1408,13 +1400,13 @@ Proof.
 Qed.
 
 Lemma bm_eqb_refl a : bm_wf a -> bm_eqb a a = true.
-Proof. intros (_ & _ & _ & _ & _ & _ & _ & Hnd). now apply bm_eqb_fields. Qed.
+Proof. intros (_ & _ & _ & _ & _ & _ & Hnd). now apply bm_eqb_fields. Qed.
 
 Definition par_wf' (a : parcels) : Prop := par_wf a /\ NoDup (keys (pa_nv a)).
 
 Definition axis_wf (a : axis) : Prop :=
   match a with
-  | ABm x => bm_wf x
+  | ABm x => bm_wf x /\ b_name x <> []      (* an empty brain-model axis has no maps: to_mapping raises *)
   | APar x => par_wf' x
   | ASc x => sc_wf x
   | ALab x => lab_wf x
@@ -1424,7 +1416,7 @@ Definition axis_wf (a : axis) : Prop :=
 Lemma axis_eqb_refl a : axis_wf a -> axis_eqb a a = true.
 Proof.
   destruct a as [x|x|x|x|x]; cbn; intros H.
-  - now apply bm_eqb_refl.
+  - apply bm_eqb_refl, H.
   - destruct H as [_ H]. unfold par_eqb. now rewrite Z.eqb_refl, !list_eqb_refl, dict_eqb_refl, opt_vol_eqb_refl.
   - unfold sc_eqb. now rewrite Z.eqb_refl, !list_eqb_refl.
   - unfold lab_eqb. now rewrite Z.eqb_refl, !list_eqb_refl.
@@ -1460,7 +1452,7 @@ Lemma axis_enc_dec a : axis_wf a ->
   exists m a', axis_enc a = Ok m /\ axis_dec m = Ok a' /\ axis_eqb a' a = true.
 Proof.
   intros Hw. destruct a as [x|x|x|x|x].
-  - destruct (bm_rle_roundtrip x Hw) as (m & a' & H1 & H2 & _ & H3 & _).
+  - destruct Hw as [Hw Hne]. destruct (bm_rle_roundtrip x Hw Hne) as (m & a' & H1 & H2 & _ & H3 & _).
     exists (MBm m), (ABm a'). cbn. rewrite H1, H2. auto.
   - exists (MPar x), (APar x). repeat split. now apply (axis_eqb_refl (APar x)).
   - exists (MSc x), (ASc x). repeat split. now apply (axis_eqb_refl (ASc x)).
@@ -1486,21 +1478,20 @@ Proof.
   { cbn [resolve]. unfold step_of at 1. cbn [s_step]. change (1 =? 0) with false. cbn iota.
     f_equal. apply py_indices_span; unfold e' in *; lia. }
   destruct (bm_index a _ _ Hw Hr) as (sb & Hg & Hwf & Hel & _).
-  { intros E. apply (f_equal (@length Z)) in E. rewrite map_length in E. unfold zseq in E. rewrite map_length, seq_length in E. cbn in E. lia. }
   exists sb. split; [exact Hg|]. split; [exact Hwf|]. rewrite Hel. apply select_span; [lia|].
   rewrite bm_elements_length by exact Hw. exact H2.
 Qed.
 
 (* iter_structures yields the maximal runs of equal structure names, in order, covering the
    axis, each with the sub-axis describing exactly its rows *)
-Lemma iter_structures_spec a : bm_wf a ->
+Lemma iter_structures_spec a : bm_wf a -> b_name a <> [] ->
   exists R structs, bm_runs a = Ok R /\ chain (b_name a) 0 R /\ maximal R
     /\ bm_iter_structures a = Ok structs
     /\ Forall2 (fun r st => fst (fst st) = fst (fst r) /\ snd (fst st) = snd (fst r) /\ bm_wf (snd st)
                   /\ bm_elements (snd st)
                      = sub (snd (fst r)) (stop_of (snd r) (bm_len a)) (bm_elements a)) R structs.
 Proof.
-  intros Hw. destruct (bm_runs_chain a) as (R & HR & Hc & Hm); [apply Hw|].
+  intros Hw Hne. destruct (bm_runs_chain a) as (R & HR & Hc & Hm); [exact Hne|].
   exists R. unfold bm_iter_structures. rewrite HR.
   cut (forall off, 0 <= off -> chain (b_name a) off R ->
        exists structs, with_subaxes a R = Ok structs
@@ -1544,3 +1535,8 @@ Proof.
     induction exts as [|e r IH]; cbn; [reflexivity|]. destruct (is_cifti_ext e) eqn:E; cbn; [exact IH|]. rewrite E. cbn. now rewrite IH.
 Qed.
 
+
+(* an EMPTY brain-model axis (now constructible and obtainable by indexing) has no structures:
+   iter_structures / to_mapping refuse it (self.name[0] raises IndexError) *)
+Lemma bm_empty_no_maps a : b_name a = [] -> bm_to_mapping a = Err EIndex /\ bm_iter_structures a = Err EIndex.
+Proof. intros H. unfold bm_to_mapping, bm_iter_structures, bm_runs. rewrite H. auto. Qed.
